@@ -27,8 +27,11 @@ from typing import Any, Callable, Dict, List, Optional
 from . import env
 from .env import HarnessError, VERIF
 
-EVIDENCE_DIR = os.path.join(VERIF, "evidence")
-REPLAY_DIR = os.path.join(VERIF, "replays")
+# VERIF_OUT_DIR redirects evidence and replay files (used only for sensitivity experiments against scratch
+# copies of the repository, so that /verif/evidence always describes /repo itself)
+_OUT = os.environ.get("VERIF_OUT_DIR") or VERIF
+EVIDENCE_DIR = os.path.join(_OUT, "evidence")
+REPLAY_DIR = os.path.join(_OUT, "replays")
 KNOWN_FILE = os.path.join(VERIF, "known_findings.txt")
 
 MAX_ROOT_CAUSES = 3
